@@ -943,7 +943,7 @@ func c03Controls() []core.Mutant {
 		{Name: "AsInt64 emits the float cast", File: "compiler/compiler.go", Old: "\tcase reflect.Int64:\n\t\tc.emit(OpCast, encode(0)...)", New: "\tcase reflect.Int64:\n\t\tc.emit(OpCast, encode(1)...)", Rule: "R3.3", Construct: "AsInt64"},
 		{Name: "index expression no longer type-checked", File: "checker/checker.go", Old: "\tt := v.visit(node.Node)\n\ti := v.visit(node.Index)\n", New: "\tt := v.visit(node.Node)\n\tvar i reflect.Type = integerType\n", Rule: "R3.5", Construct: "IndexNode/slot Index"},
 		{Name: "retyping predicate extended to modulo only", File: "checker/types.go", Old: "func isIntegerOrArithmeticOperation(node ast.Node) bool {\n\tswitch n := node.(type) {\n\tcase *ast.IntegerNode:\n\t\treturn true\n\tcase *ast.UnaryNode:\n\t\tswitch n.Operator {\n\t\tcase \"+\", \"-\":\n\t\t\treturn true\n\t\t}\n\tcase *ast.BinaryNode:\n\t\tswitch n.Operator {\n\t\tcase \"+\", \"/\", \"-\", \"*\":", New: "func isIntegerOrArithmeticOperation(node ast.Node) bool {\n\tswitch n := node.(type) {\n\tcase *ast.IntegerNode:\n\t\treturn true\n\tcase *ast.UnaryNode:\n\t\tswitch n.Operator {\n\t\tcase \"+\", \"-\":\n\t\t\treturn true\n\t\t}\n\tcase *ast.BinaryNode:\n\t\tswitch n.Operator {\n\t\tcase \"+\", \"/\", \"-\", \"*\", \"%\":", Rule: "R3.7", Construct: "agree"},
-		{Name: "literals retyped to any parameter type", File: "checker/checker.go", Old: "if isIntegerOrArithmeticOperation(arg) && isNumber(in) {", New: "if isIntegerOrArithmeticOperation(arg) {", Rule: "R3.7", Construct: "numeric parameter type"},
+		{Name: "literals retyped to any parameter type", File: "checker/checker.go", Old: "if isIntegerOrArithmeticOperation(arg) && isNumber(in) && !v.hasOverloadedOperator(arg) {", New: "if isIntegerOrArithmeticOperation(arg) && !v.hasOverloadedOperator(arg) {", Rule: "R3.7", Construct: "numeric parameter type"},
 	}
 }
 
